@@ -314,6 +314,17 @@ func (e *clEngine) exportImport() {
 	}
 	o.Emit("clp nextid", fmt.Sprintf("ok %d", k.GetNextPositionId(e.ctx())), true)
 	o.Emit("clp dump", e.dumpImpl(), true)
+	// F41: the full-range liquidity record as the imported node reports it (the model: sum over the full-range positions; the record
+	// does not exist when InitGenesis met no full-range position, which the model writes as 0)
+	if fr, err := k.GetFullRangeLiquidityInPool(e.ctx(), e.poolId); err == nil {
+		o.Emit("clp fullrange-imported", "ok "+fr.BigInt().String(), true)
+		o.Count("exportimport.fullrange-record.present")
+	} else if !e.ctx().KVStore(e.h.App.GetKey(cltypes.StoreKey)).Has(cltypes.KeyFullRangeLiquidityPrefix(e.poolId)) {
+		o.Emit("clp fullrange-imported", "ok 0", true)
+		o.Count("exportimport.fullrange-record.absent")
+	} else {
+		o.Emit("clp fullrange-imported", "err", true)
+	}
 }
 
 func (e *clEngine) ownerName(addr string) string {
